@@ -29,6 +29,10 @@ def dstepLine (s : DState) (toks : List String) : DState × String :=
     match final.toNat?, parseCsv incs, parseCsv gets with
     | some f, some i, some g => (s, Conc.counterWhy i f g)
     | _, _, _ => (s, "bad-op")
+  | ["conc", "wide", n, gets] =>
+    match n.toNat?, parseCsv gets with
+    | some n, some g => (s, if Conc.wideOk n g then "accept" else "reject reader-saw-unwritten-value")
+    | _, _ => (s, "bad-op")
   | ["conc", "mixed", written, gets, qget, qraw] =>
     match parseCsv written, parseCsv gets, parseCsv qget, parseCsv qraw with
     | some w, some g, some qg, some qr =>
